@@ -5,7 +5,7 @@
 /// C04/C02: the position hash field is private; outside code cannot desynchronise it from the pieces.
 /// ```compile_fail,E0616
 /// let mut b = chess_movegen::Board::standard();
-/// b.zobrist = 0;
+/// b.{{field chess_movegen::Board u64}} = 0;
 /// let _ = b;
 /// ```
 /// ```no_run
@@ -17,7 +17,7 @@ pub mod c04_zobrist_field_private {}
 /// C04/C02: the piece sets can be read through `raw()` but not written from outside.
 /// ```compile_fail,E0616
 /// let mut b = chess_movegen::Board::standard();
-/// b.raw = *chess_movegen::Board::standard().raw();
+/// b.{{field chess_movegen::Board chess_movegen::raw::RawBoard}} = *chess_movegen::Board::standard().raw();
 /// ```
 /// ```no_run
 /// let mut b = chess_movegen::Board::standard();
@@ -41,7 +41,7 @@ pub mod c04_raw_shared_only {}
 /// C03: the cached `checkers` / `pinned` sets are private.
 /// ```compile_fail,E0616
 /// let mut b = chess_movegen::Board::standard();
-/// b.checkers = chess_bitboard::BitBoard::empty();
+/// b.{{field chess_movegen::Board chess_bitboard::BitBoard}} = chess_bitboard::BitBoard::empty();
 /// ```
 /// ```no_run
 /// let mut b = chess_movegen::Board::standard();
@@ -52,7 +52,7 @@ pub mod c03_checkers_private {}
 /// C03: see above, `pinned`.
 /// ```compile_fail,E0616
 /// let mut b = chess_movegen::Board::standard();
-/// b.pinned = chess_bitboard::BitBoard::empty();
+/// b.{{field chess_movegen::Board chess_bitboard::BitBoard}} = chess_bitboard::BitBoard::empty();
 /// ```
 /// ```no_run
 /// let mut b = chess_movegen::Board::standard();
@@ -63,7 +63,7 @@ pub mod c03_pinned_private {}
 /// C06: the builder's board is private, so `build()` (which validates) is the only way out.
 /// ```compile_fail,E0616
 /// let b = chess_movegen::Board::builder();
-/// let _ = b.board;
+/// let _ = b.{{field chess_movegen::BoardBuilder *}};
 /// ```
 /// ```no_run
 /// let b = chess_movegen::Board::builder();
@@ -109,7 +109,7 @@ pub mod c07_piece_of_unchecked_is_unsafe {}
 /// C10: the generator's cursor and list are private.
 /// ```compile_fail,E0616
 /// let mut g = chess_movegen::Board::standard().legals();
-/// g.index = 3;
+/// g.{{field chess_movegen::iter::MoveGen usize}} = 3;
 /// ```
 /// ```no_run
 /// let mut g = chess_movegen::Board::standard().legals();
@@ -119,7 +119,7 @@ pub mod c10_movegen_cursor_private {}
 
 /// C17: a book cursor cannot be forged at an arbitrary index (private field, no public constructor).
 /// ```compile_fail,E0451
-/// let m = chess_lookup::BookMoves { index: 7 };
+/// let m = chess_lookup::BookMoves { {{field chess_lookup::BookMoves *}}: 7 };
 /// let _ = m;
 /// ```
 /// ```no_run
@@ -130,7 +130,7 @@ pub mod c17_book_cursor_unforgeable {}
 
 /// C20: the thread-local override is not nameable from outside the crate.
 /// ```compile_fail,E0603
-/// let _ = &tracing_enabled::LOCAL_ENABLED;
+/// let _ = &tracing_enabled::{{item tracing_enabled const std::thread::local::LocalKey}};
 /// ```
 /// ```no_run
 /// let _ = &tracing_enabled::is_enabled;
@@ -139,7 +139,7 @@ pub mod c20_local_private {}
 
 /// C20: the global flag is not nameable from outside the crate.
 /// ```compile_fail,E0603
-/// let _ = &tracing_enabled::IS_ENABLED;
+/// let _ = &tracing_enabled::{{item tracing_enabled static core::sync::atomic::Atomic}};
 /// ```
 /// ```no_run
 /// let _ = &tracing_enabled::enable;
@@ -159,7 +159,8 @@ pub mod c20_saved_state_not_send {}
 
 /// C20: a saved override cannot be forged.
 /// ```compile_fail,E0451
-/// let s = tracing_enabled::LocalEnableState { flag: todo!(), _cell: std::marker::PhantomData };
+/// let base: tracing_enabled::LocalEnableState = tracing_enabled::local_take();
+/// let s = tracing_enabled::LocalEnableState { ..base };       // no field is named: the witness does not depend on their names
 /// tracing_enabled::restore(s);
 /// ```
 /// ```no_run
